@@ -38,9 +38,11 @@ STATEFUL = [
     "A", "B", "center(v)", "scale(v)", "standardize(v)", "C(B, contr.sum)", "C(B, contr.poly)",
     # stateful transforms wrapped around multi-column (integer-keyed) bases, and a quoted name whose sanitised
     # form collides with another column
+    # explicit bounds narrower than the data: replayed rows may all lie outside them
+    "bs(x, df=4, lower_bound=2, upper_bound=8, extrapolation='clip')", "bs(x, df=3, lower_bound=3, upper_bound=7, extrapolation='zero')",
     "center(bs(x, df=4))", "scale(cr(z, df=3))", "scale(poly(y, 2))", "center(`a b`)", "scale(`a b`):a_b", "scale(`a b`)", "standardize(`a b`)",
 ]
-STATELESS = ["2.5", "0.5", "3", "log(w)", "np.exp(y)", "I(x * y)", "{x + 1}", "hashed(A, levels=3)", "x", "y", "z", "w", "np.log(w + 1)"]
+STATELESS = ["2.5", "0.5", "3", "log(w)", "np.exp(y)", "I(x * y)", "{x + 1}", "hashed(A, levels=3)", "hashed(H, levels=16)", "hashed(H, levels=8):x", "x", "y", "z", "w", "np.log(w + 1)"]
 LEVELS = {"A": ["b", "a", "d", "c"], "B": ["y", "x", "z"], "G": [3, 1, 2]}
 
 
@@ -69,6 +71,8 @@ def train_frame(seed, n):
     df["A"] = pd.Series(cats["A"][0], dtype=object)
     df["B"] = pd.Categorical(cats["B"][0], categories=cats["B"][1])
     df["G"] = np.array(cats["G"][0], dtype="int64")
+    # a text column with missing values (hashed() keeps them as a level of their own)
+    df["H"] = pd.Series([[None, "p", "q", "r", "s", None][int(i)] for i in rng.integers(0, 6, n)], dtype=object)
     return df
 
 
@@ -89,6 +93,7 @@ def follow_frame(train, h):
         f["A"] = pd.Series([sorted(train["A"].unique())[int(i) % train["A"].nunique()] for i in rng.integers(0, 10, k)], dtype=object)
         f["B"] = pd.Categorical([list(train["B"].cat.categories)[int(i) % len(train["B"].cat.categories)] for i in rng.integers(0, 10, k)], categories=list(train["B"].cat.categories))
         f["G"] = np.array([sorted(train["G"].unique())[int(i) % train["G"].nunique()] for i in rng.integers(0, 10, k)], dtype="int64")
+        f["H"] = pd.Series([[None, "p", "q", "r", "s", None][int(i)] for i in rng.integers(0, 6, k)], dtype=object)
         parts.append(f)
     keep_labels = h.get("index") == "labels" and rows and not (k or not rows)
     d = pd.concat(parts, ignore_index=not keep_labels)
@@ -240,6 +245,8 @@ def gen():
             [["y"], ["x"], ["B"], ["y", "B"], ["x", "B"]],
             [["x", "B"], ["B"], ["x"]],
             [["scale(x)"], ["z"], ["scale(x)", "C(G)"], ["z", "C(G)"]],
+            [["bs(x, df=4, lower_bound=2, upper_bound=8, extrapolation='clip')"], ["hashed(H, levels=16)"]],
+            [["bs(x, df=3, lower_bound=3, upper_bound=7, extrapolation='zero')"], ["z"], ["hashed(H, levels=8)", "x"]],
             # one quoted column inside several stateful transforms (each records its state under the sanitised alias)
             [["center(`a b`)"], ["scale(`a b`)"]],
             [["scale(`a b`)"], ["center(`a b`)"], ["np.log(`a b` + 10)"], ["standardize(`a b`)", "A"]],
